@@ -152,7 +152,9 @@ K('C15', 'init-fastpath-same-width', [(DS, "        self.df = df.loc[:,domain.at
 K('C15', 'merge-swapped-attrs', [(DOM, "        return Domain(self.attrs + extra.attrs, self.shape + extra.shape)", "        return Domain(extra.attrs + self.attrs, self.shape + extra.shape)")], 'parallel-domain')
 K('C15', 'datavector-n-edges', [(DS, "        bins = [range(n+1) for n in self.domain.shape]", "        bins = [range(n) for n in self.domain.shape]")], 'histogram')
 K('C15', 'datavector-no-weights', [(DS, "np.histogramdd(self.df.values, bins, weights=self.weights)[0]", "np.histogramdd(self.df.values, bins)[0]")], 'histogram')
-K('C15', 'project-sorted-cols', [(DS, "        data = self.df.loc[:,cols]", "        data = self.df.loc[:,sorted(cols)]")], 'project-consistent')
+# behaviour-preserving: the constructor re-selects the columns by name in domain order (found by the near-miss round)
+T('C15', 'project-sorted-cols', [(DS, "        data = self.df.loc[:,cols]", "        data = self.df.loc[:,sorted(cols)]")])
+K('C15', 'project-domain-sorted', [(DS, "        domain = self.domain.project(cols)", "        domain = self.domain.project(sorted(cols))")], 'project-consistent')
 K('C15', 'size-truthiness', [(DOM, "        if attrs == None:", "        if not attrs:")], 'none-test')
 K('C15', 'marginalize-set-diff', [(DOM, "        proj = [a for a in self.attrs if not a in attrs]", "        proj = list(set(self.attrs) - set(attrs))")], 'order-filter')
 K('C15', 'canonical-request-order', [(DOM, "        return tuple(a for a in self.attrs if a in attrs)", "        return tuple(a for a in attrs if a in self.attrs)")], 'order-filter')
